@@ -71,6 +71,9 @@ META["rule"] += (
 META["rule"] += (
     " " + "Added after the fifth round: 17th family 'resistive_large' (networks of 130 .. 220, thorough 420 nodes); the public Rainfall helpers with the caller's own arrays of fewer / more series than the network has nodes.")
 
+META["rule"] += (
+    " " + 'Added after the sixth round: rainfall records of 1025, 1100, 2100 samples; 129, 200, 300 bins in the surrogate MI test.')
+
 _state = {"off": 0, "path": None}
 
 
@@ -774,7 +777,8 @@ def fam_surrogates(ctx):
             yield (f"Surrogates.test_pearson_correlation|{tag}",
                    lambda a=a: S.test_pearson_correlation(
                        a, a[::-1].copy()).shape)
-            for nb in (1, 2, 32):
+            # (also more bins than a signed / unsigned byte can number)
+            for nb in (1, 2, 32, 129, 200, 300):
                 yield (f"Surrogates.test_mutual_information|bins={nb},{tag}",
                        lambda a=a, nb=nb: S.test_mutual_information(
                            a, a[::-1].copy(), n_bins=nb).shape)
@@ -1012,6 +1016,19 @@ def fam_climate(ctx):
             return out
         yield (f"RainfallClimateNetwork.spearman_corr|caller-array,N={N0},"
                f"k={k},T={T},{dt}", t)
+    # long records (beyond 1024 / 2048 samples per node) through the
+    # Spearman kernel of the rainfall network
+    for T, N in ((1100, 3), (2100, 2), (1025, 4)):
+        def t(T=T, N=N):
+            rr = np.random.default_rng([T, N])
+            obs = rr.gamma(1.0, 1.0, (T, N)) * (rr.random((T, N)) < 0.7)
+            cd = climate_data(obs, np.linspace(-50, 50, N),
+                              np.linspace(0, 200, N), cycle=1)
+            net = C.RainfallClimateNetwork(
+                cd, threshold=0.2, event_threshold=(0, 1), scale_fac=1.0,
+                offset=0.0, silence_level=3)
+            return net.similarity_measure().shape
+        yield f"RainfallClimateNetwork.__init__|long-record,T={T},N={N}", t
     # Rainfall helpers with masks
     for T, N in itertools.product((1, 2, 5, 10, 17), (1, 2, 6, 11)):
         obs = r.gamma(1.0, 1.0, (T, N)) * (r.random((T, N)) < 0.7)
